@@ -368,7 +368,13 @@ class Driver:
     def invoke(self, sim):
         """one invocation of the script's main()"""
         sim.operator_brings_lab_results()
-        argv = ["batchie.py", "--mode", sim.cfg["mode"], "--screen", sim.screen, "--batch-size", str(sim.cfg["batch"]), "--outdir", sim.outdir, "--n_chains", str(sim.cfg["n_chains"])]
+        screen_arg, out_arg = sim.screen, sim.outdir
+        cwd0 = os.getcwd()
+        if sim.cfg.get("relative_paths"):
+            # the operator works in the project directory and names files relative to it
+            os.chdir(sim.root)
+            screen_arg, out_arg = os.path.relpath(sim.screen, sim.root), os.path.relpath(sim.outdir, sim.root)
+        argv = ["batchie.py", "--mode", sim.cfg["mode"], "--screen", screen_arg, "--batch-size", str(sim.cfg["batch"]), "--outdir", out_arg, "--n_chains", str(sim.cfg["n_chains"])]
         old = sys.argv
         sys.argv = argv
         try:
@@ -387,6 +393,7 @@ class Driver:
             return ("error", "%s: %s" % (type(e).__name__, e))
         finally:
             sys.argv = old
+            os.chdir(cwd0)
 
 
 def run_to_completion(drv, sim, target_steps, crashes, max_invocations, seen=None):
@@ -542,6 +549,8 @@ def configurations(tier, rng):
             cfgs.append({"mode": "retrospective", "plates": p, "batch": b, "n_chains": 1 + (p + b + os_) % 2, "n_chunks": 1 + (p + os_) % 2, "order_seed": os_})
         for b, k in pro:
             cfgs.append({"mode": "prospective", "plates": max(6, b + 2), "batch": b, "invocations": k, "n_chains": 1 + (b + os_) % 2, "n_chunks": 1 + (k + os_) % 2, "order_seed": os_})
+    for i, c in enumerate(cfgs):
+        c["relative_paths"] = bool(i % 2)  # every second configuration names the screen and the output directory relative to the working directory
     return cfgs
 
 
